@@ -1,5 +1,6 @@
 import CvProps.RealInst
 import CvProps.C15Lemmas
+import CvProps.C18Lemmas
 /-!
 # C15 — every sample lands in exactly one grid bin; grid index arithmetic
 
@@ -306,6 +307,79 @@ theorem restart_roundtrip (g : GridFile ℝ) (h : WF g) :
   rw [takeInts_map _ _ rfl]
   simp only
   exact raw_roundtrip g h _ rfl
+
+/-- **restart block read by a grid of another shape**: a grid on variables with periods `periods` that reads the block takes
+    over sizes, boundaries, widths and data *and* re-derives its periodicity flags from the boundaries in the block — so it
+    ends up with the flags of the grid written, whatever flags (or boundaries) it had before: they do not enter at all -/
+theorem restart_takes_over_periodicity (g : GridFile ℝ) (h : WF g) (periods : List (Option ℝ)) (cvw : List ℝ)
+    (hper : g.per = flagsOf periods cvw g.lo (uppers g)) :
+    decodeRestartOn periods cvw g.mult (encodeRestart g) = some g := by
+  have hz : List.zipWith (fun (lw : ℝ × ℝ) (n : Int) => Tok.real (lw.1 + lw.2 * (n : ℝ))) (g.lo.zip g.w) g.nx
+      = (List.zipWith (fun (lw : ℝ × ℝ) (n : Int) => lw.1 + lw.2 * (n : ℝ)) (g.lo.zip g.w) g.nx).map Tok.real := by
+    rw [List.map_zipWith]
+  have hzl : (List.zipWith (fun (lw : ℝ × ℝ) (n : Int) => lw.1 + lw.2 * (n : ℝ)) (g.lo.zip g.w) g.nx).length
+      = g.nx.length := by
+    simp [h.lo, h.w]
+  unfold encodeRestart
+  rw [hz]
+  simp only [List.append_assoc, List.cons_append, List.nil_append]
+  rw [decodeRestartOn, Int.toNat_natCast]
+  rw [takeReals_map _ _ h.lo]
+  simp only
+  rw [takeReals_map _ _ hzl]
+  simp only
+  rw [takeReals_map _ _ h.w]
+  simp only
+  rw [takeInts_map _ _ rfl]
+  simp only
+  have hu : flagsOf periods cvw g.lo
+      (List.zipWith (fun (lw : ℝ × ℝ) (n : Int) => lw.1 + lw.2 * (n : ℝ)) (g.lo.zip g.w) g.nx) = g.per := by
+    rw [hper]; rfl
+  rw [hu]
+  exact raw_roundtrip g h _ rfl
+
+/-- the flag of a dimension is "the variable is periodic and the interval is a whole number of periods" (to the tolerance
+    `1e-10` of the variable's width): a grid over exactly one period is periodic, a grid over a proper part of it is not -/
+theorem periodicFlag_whole_period (P cvw lo : ℝ) (hP : 0 < P) (hw : 0 < cvw) :
+    periodicFlag (some P) cvw lo (lo + P) = true := by
+  unfold periodicFlag
+  simp only [decide_eq_true_eq, prim_sqrt]
+  have hd : dist2S (some P) lo (lo + P) = 0 := by
+    unfold dist2S pdiff
+    simp only [sq_real]
+    have h1 : (lo - (lo + P)) / P = -1 := by field_simp; ring
+    have h2 : ⌊(-1 : ℝ) + 1 / 2⌋ = -1 := by
+      rw [Int.floor_eq_iff]; constructor <;> norm_num
+    rw [Cv.C18.pshift_eq, h1, h2]
+    push_cast
+    ring
+  rw [hd, Real.sqrt_zero, zero_div]
+  norm_num
+
+theorem periodicFlag_part_of_period (P cvw lo hi : ℝ) (hP : 0 < P) (hw : 0 < cvw) (hlo : lo < hi) (hhi : hi - lo ≤ P / 2)
+    (hbig : cvw * 1.0e-10 ≤ hi - lo) :
+    periodicFlag (some P) cvw lo hi = false := by
+  unfold periodicFlag
+  simp only [decide_eq_false_iff_not, prim_sqrt, not_lt]
+  have hd : dist2S (some P) lo hi = (hi - lo) * (hi - lo) := by
+    unfold dist2S pdiff
+    simp only [sq_real]
+    have h2 : ⌊(lo - hi) / P + 1 / 2⌋ = 0 := by
+      rw [Int.floor_eq_iff]
+      constructor
+      · have : -(1/2 : ℝ) ≤ (lo - hi) / P := by
+          rw [le_div_iff₀ hP]; linarith
+        norm_num; linarith
+      · have : (lo - hi) / P < 0 := div_neg_of_neg_of_pos (by linarith) hP
+        norm_num; linarith
+    rw [Cv.C18.pshift_eq, h2]
+    push_cast
+    ring
+  rw [hd, Real.sqrt_mul_self (by linarith), le_div_iff₀ hw]
+  linarith
+
+/-- a non-periodic variable never gives a periodic grid dimension -/
+theorem periodicFlag_nonperiodic (cvw lo hi : ℝ) : periodicFlag (none : Option ℝ) cvw lo hi = false := rfl
 
 /-- a truncated raw stream is rejected, not padded -/
 theorem raw_truncated_rejected (g : GridFile ℝ) (h : WF g) (k : Nat) (hk : k < npoints g.nx * g.mult) :
